@@ -131,7 +131,10 @@ def domain(desc, scope):
     """Small-scope value domain for a parameter descriptor (JSON form)."""
     k = desc['kind']
     if k == 'int':
-        return list(range(-scope, scope + 2))
+        # small scope plus magnitudes beyond float precision (exact integer
+        # arithmetic must not go through floats)
+        return list(range(-scope, scope + 2)) + [
+            2 ** 63 + 1, -(2 ** 63) - 1, 10 ** 40 + 7]
     if k == 'bool':
         return [False, True]
     if k == 'str':
